@@ -782,8 +782,8 @@ Inject(s, in) ==
                                  !.mlast = body]
       [] in.k = "conf" ->
             LET q == [f |-> IF in.uns THEN "uconfirm" ELSE "confirm", fc |-> 0, seq |-> in.seq,
-                      hash |-> 0, hs |-> <<>>, cl |-> {}, ob |-> "", bad |-> "", src |-> "M", dst |-> "U",
-                      id |-> s.fid]
+                      hash |-> 0, hs |-> <<>>, cl |-> {}, ob |-> "", bad |-> "", src |-> Fld(in, "src", "M"),
+                      dst |-> "U", id |-> s.fid]
             IN IF s.pc \in {"Down", "Dead"} THEN s
                ELSE [s EXCEPT !.inbox = Append(@, q), !.fid = @ + 1]
       [] OTHER -> s
